@@ -60,6 +60,9 @@ type OpEngine struct {
 	concreteSizes     bool
 	atomSize          map[string]int64
 	ConcreteFallbacks int
+	ProbeResults      bool // labelled instances: results are fed to Scale / Sum probes
+	ProbeRuns         int
+	NonFinite         bool              // labelled instances with infinite elements are included
 	PathBudgetHits    int               // labelled instances whose path enumeration was cut at the budget
 	leafAlias         map[string]string // exact-tie cases: elements of tensor key equal those of tensor value
 	PiecewiseProofs   int               // comparisons decided by region-wise equality of indicator expressions
